@@ -42,7 +42,33 @@ def load_reactions(tags=None) -> dict:
         REACTIONS[tag] = reaction
         if tag in THREE_BODY_RELABEL:
             REACTIONS[tag + "+r"] = relabel_edge_ids(reaction)
+        if tag in ALIASED:
+            alias = alias_reaction(reaction)
+            REACTIONS[tag + "@x"] = alias
+            REACTIONS[tag + "@x+r"] = relabel_edge_ids(alias)
     return REACTIONS
+
+
+ALIASED = ("gpp_h", "lc_h", "d3pi_h")
+
+
+def alias_reaction(reaction):
+    """The same reaction from a customised particle table: every intermediate particle gets another
+    name and LaTeX label, all quantum numbers unchanged.  qrules' Particle equality ignores names,
+    so the alias is == to the original although its models must carry the new names."""
+    import attrs  # noqa: PLC0415
+    from qrules.transition import ReactionInfo, State  # noqa: PLC0415
+
+    intermediate = {s.particle.name for t in reaction.transitions for s in t.intermediate_states.values()}
+
+    def rename(state):
+        particle = state.particle
+        if particle.name in intermediate:
+            particle = attrs.evolve(particle, name=particle.name + "@x", latex=(particle.latex or particle.name) + "^{x}")
+        return State(particle, state.spin_projection)
+
+    return ReactionInfo(transitions=[t.convert(state_converter=rename) for t in reaction.transitions],
+                        formalism=reaction.formalism)
 
 
 def ampform_caches() -> dict:
@@ -77,8 +103,9 @@ _PROBE_STATE = {"raise_at": None, "calls": 0, "fired": False}
 class ProbeBuilder:
     """Recording implementation of the ResonanceDynamicsBuilder protocol."""
 
-    def __init__(self, tag: str) -> None:
+    def __init__(self, tag: str, exotic: bool = False) -> None:
         self.verif_tag = tag
+        self.exotic = exotic
 
     def __call__(self, resonance, variable_pool):
         import sympy as sp  # noqa: PLC0415
@@ -99,6 +126,13 @@ class ProbeBuilder:
         expr = sp.Function(f"Dyn{self.verif_tag}")(
             vp.incoming_state_mass, vp.outgoing_state_mass1, vp.outgoing_state_mass2, L)
         par = sp.Symbol(f"q_{{{self.verif_tag},{resonance.name}}}", real=True)
+        if self.exotic:
+            # parameters a custom lineshape may legitimately use: assumptions that are only False
+            # facts, an Indexed parameter, an integer-valued default
+            n = sp.Symbol(f"q_{{n,{resonance.name}}}", integer=False)
+            g = sp.Symbol(f"q_{{g,{resonance.name}}}", zero=False)
+            a = sp.IndexedBase(f"q_{{a,{resonance.name}}}")[0]
+            return par * expr * g**n + a, {par: 0.25, n: 2, g: 1.5, a: 3}
         return par * expr, {par: 0.25 + len(self.verif_tag)}
 
     def __repr__(self) -> str:
@@ -134,6 +168,7 @@ def dynamics_registry() -> dict:
             "probeA": ProbeBuilder("A"),
             "probeB": ProbeBuilder("B"),
             "probeC": ProbeBuilder("C"),
+            "probeX": ProbeBuilder("X", exotic=True),
         })
     return _DYN
 
